@@ -44,6 +44,8 @@ def hasPrefix (s p : String) : Bool := p.toList.isPrefixOf s.toList
 /-- `strings.HasSuffix` -/
 def hasSuffix (s p : String) : Bool := p.toList.isSuffixOf s.toList
 
+def any {α : Type} (l : List α) (p : α → Bool) : Bool := l.any p
+
 def ok : R Unit := .ok ()
 
 /-- call of an optional (nil-able) Go function value returning `error` -/
